@@ -68,10 +68,21 @@ func literalOf(w *World, fn *ssa.Function, typeName string) map[string]ssa.Value
 				}
 			}
 		}
-		if len(m) > len(out) {
+		// several allocations of the type (the literal and the variable it is
+		// assigned to): take the union, the first value seen per field wins
+		if out == nil {
 			out = m
+		} else {
+			for k, v := range m {
+				if _, ok := out[k]; !ok {
+					out[k] = v
+				}
+			}
 		}
 	})
+	if len(out) == 0 {
+		return nil
+	}
 	return out
 }
 
